@@ -240,10 +240,12 @@ func checkC16(r *Run) {
 	}
 	if f := r.fn("(*store/gaskv.Store).iterator"); f != nil {
 		cs := CallsIn(f, "(*store/gaskv.gasIterator).consumeSeekGas")
+		// Valid of the new iterator: through the interface, or directly on the concrete type when the constructor returns it
+		validOfNew := `^(?:github\.com/tendermint/tm-db\.Iterator|\(\*store/gaskv\.gasIterator\))\.Valid\(store/gaskv\.newGasIterator\(`
 		if len(cs) == 1 {
-			ok, _ := HasAtom(P.Guards(cs[0], 0), `^github\.com/tendermint/tm-db\.Iterator\.Valid\(store/gaskv\.newGasIterator\(`)
+			ok, _ := HasAtom(P.Guards(cs[0], 0), validOfNew)
 			r.Check(ok, "C16-R2", "gaskv.iterator/seek-charged-iff-valid", P.InstrPos(cs[0]), "first element charged only when valid", "creation charge guard: "+strings.Join(atomStrings(P.Guards(cs[0], 0)), " ; "))
-			r.mustFollowEdge("C16-R2", "gaskv.iterator/valid=>charged", f, `^github\.com/tendermint/tm-db\.Iterator\.Valid\(store/gaskv\.newGasIterator\(`, func(in ssa.Instruction) bool { return in == ssa.Instruction(cs[0]) }, nil, "consumeSeekGas")
+			r.mustFollowEdge("C16-R2", "gaskv.iterator/valid=>charged", f, validOfNew, func(in ssa.Instruction) bool { return in == ssa.Instruction(cs[0]) }, nil, "consumeSeekGas")
 		} else {
 			r.Viol("C16-R2", "gaskv.iterator/seek-charged-iff-valid", P.Pos(f.Pos()), "expected one consumeSeekGas call at iterator creation")
 		}
